@@ -1,5 +1,5 @@
 SPECIFICATION GenSpec
-CONSTANTS NH = 2 NO = 2 NN = 2 MaxLen = 2 MaxLen2 = 1 MaxSub = 1 MaxArg = 2 Kinds = {"ref", "item", "group", "cfg", "cmd", "stage"} Fails = {0, 1, 2} FailOut = FALSE Prune = TRUE MaxDepth = 7
+CONSTANTS NH = 2 NO = 2 NN = 2 MaxLen = 2 MaxLen2 = 1 MaxSub = 1 MaxArg = 2 Kinds = {"ref", "item", "group", "cfg", "cmd", "stage"} Solo = {2} Fails = {0, 1, 2} FailOut = FALSE Prune = TRUE MaxDepth = 7
 CONSTRAINT Bound
 VIEW Skel
 INVARIANTS TypeOK AliasOK Refines Balance AllGone OneSlot
